@@ -3,7 +3,7 @@
    encoded (function types, unions, call-signature literals, interfaces with extends, property
    syntax, literal-union aliases, declarations before/after). *)
 From VJ Require Import Model.Str Model.Json Model.Ast Model.State Model.Util Model.Types
-  Lemmas.NodeInd Lemmas.TypesProofs.
+  Lemmas.NodeInd Lemmas.TypesProofs Lemmas.NamesProofs.
 
 (* property syntax: the key is the event; getters declare nothing *)
 Theorem C19_property_syntax : forall E key cm opt t s name k2 cm2 t2,
@@ -24,3 +24,17 @@ Theorem C19_registry_complete :
     reg_get sym c (aliases (collect_ts_decls E subs m s)) <> None.
 Proof. exact collect_sees_every_alias. Qed.
 Print Assumptions C19_registry_complete.
+
+(* "unions and aliases of literals expanded", for every such type (Lemmas/NamesProofs.v): a name type
+   built from string literal types by unions of any width and alias chains of any length, nested to
+   any depth, resolves to exactly the names written, in order, without a diagnostic.  The same
+   function resolves the key argument of Pick / Omit (C16). *)
+Theorem C19_names_are_expanded : forall E s k fuel,
+  (kdepth k <= fuel)%nat -> kwf s k -> rsus E fuel (enc_k k) s = (names k, s).
+Proof. intros E s k. exact (rsus_exact E s k). Qed.
+Print Assumptions C19_names_are_expanded.
+
+Theorem C19_names_hypotheses_satisfiable :
+  kwf st0 kenc_example /\ names kenc_example = [s_ "update:open"; s_ "before-close"; s_ "a"].
+Proof. exact kenc_example_ok. Qed.
+Print Assumptions C19_names_hypotheses_satisfiable.
